@@ -198,6 +198,16 @@ Definition head_bare (e : expr) : bool :=
   | _ => false
   end.
 
+(* visit_Path, steps[0]: the head is looked at through empty shapes (_skip_empty_shapes); an empty shape over a
+   non-partial path is printed as that path (`Foo {}.bar` is `Foo.bar`) *)
+Fixpoint skip_empty (e : expr) : expr := match e with EShape y [] => skip_empty y | _ => e end.
+Definition empty_over_path (e : expr) : bool :=
+  match e with
+  | EShape _ [] => match skip_empty e with EPathRef _ _ _ | EPathExpr _ _ => true | _ => false end
+  | _ => false
+  end.
+Definition head_bare_p (e : expr) : bool := head_bare (skip_empty e) || empty_over_path e.
+
 Definition sym_items (ss : list N) : list item := sep_by (fun s => [S s]) [ISp] ss.
 
 Definition op_syms (o : N) : list N := match binop_syms binop_table o with Some ss => ss | None => [] end.
@@ -258,7 +268,7 @@ Fixpoint pp_items (e : expr) {struct e} : list item :=
   | EPathRef m n ss => pp_name m n ++ pp_steps ss
   | EPathPartial ss => pp_steps ss
   | EPathExpr h ss =>
-      (if head_bare h then pp_items h else [S S_LPAREN] ++ pp_items h ++ [S S_RPAREN]) ++ pp_steps ss
+      (if head_bare_p h then pp_items h else [S S_LPAREN] ++ pp_items h ++ [S S_RPAREN]) ++ pp_steps ss
   | EUn o x =>
       if un_word o then [S (un_sym o); ISp; S S_LPAREN] ++ pp_items x ++ [S S_RPAREN]
       else [S (un_sym o)] ++
